@@ -13,7 +13,9 @@ MANIFEST = {
     "design_ref": "DESIGN.md §7 C06",
     "technique": "Coq proof (inversion of accrue_interest + chained floor inequalities) + model/implementation correspondence on the bank state machine",
 }
-THEOREMS = ["C06_monotone_nonneg_fees_program_fee_off", "C06_idempotent", "C06_credit_le_charge_partial"]
+THEOREMS = ["C06_monotone_nonneg_fees_program_fee_off", "C06_idempotent", "C06_credit_le_charge_partial",
+            "C06_deposit_accrues_first", "C06_withdraw_accrues_first", "C06_borrow_accrues_first", "C06_repay_accrues_first",
+            "C06_close_balance_accrues_first", "C06_bankruptcy_accrues_first", "C06_liquidation_accrues_both_banks_first"]
 # handler-level freshness theorems are added to this list when props/C06.v gains them
 RULE = ("banks with random non-zero totals (10^3..10^18 native units), utilisation 0..100%, share values 1/accrued/post-loss, "
         "valid seven-point curves, fee settings zero/typical, program fees on/off; sequences of clock advances (1 s .. 1 year) "
